@@ -597,7 +597,7 @@ Proof.
                           ~ In (lq_id q) (map lq_id (d_lq (w_db w)))).
   { unfold p, request_melt_quote. destruct u; cbn [negb]; [|left; reflexivity].
     destruct d; cbn [negb]; [|left; reflexivity].
-    destruct (msat =? 0); [left; reflexivity|].
+    destruct ((msat <=? 0) || (two63 <=? msat)); [left; reflexivity|].
     destruct w as [db l m a n]. sx.
     set (internal := match same_invoice (ROk (find (fun q => mq_hash q =? h) (d_mq db))) req with Some _ => true | None => false end).
     assert (Hplan : forall (is_mpp : bool) (amount_msat qa : Z), 0 <= qa ->
